@@ -87,7 +87,10 @@ class C20(Monitor):
             "checksum, surrounding blanks stripped); per line: unchanged => byte-identical line, suppressed => None, commands => same "
             "command sequence joined and terminated by the file's EOL; afterwards the live state equals its snapshot; non-trivial = "
             "file in which an episode was open and a line was rewritten; distinct by digest")
-    assumptions = ["commands are compared after tokenisation (the processor passes a normalised command string to the handlers)"]
+    assumptions = ["commands are compared after tokenisation (the processor passes a normalised command string to the handlers)",
+                   "the live side is given the command of a numbered line without its N-number and checksum; OctoPrint itself reports "
+                   "no code to the hook for such a line (its files are not expected to carry line numbers), so for those lines the "
+                   "comparison is with an idealised live print"]
 
 
     def gen_case(self, rnd, tier, k):
